@@ -71,44 +71,19 @@ proof fn lemma_innermost_skip(stack: Seq<(String, Ref)>, name: Seq<char>, k: int
     } else { assert(stack.take(k) =~= stack); }
 }
 
-/// no declaration statement (blob / enum / external) anywhere in a resolved tree: the type
-/// checker's `statement` treats those as unreachable!("Illegal inner statement")
-spec fn e_nodecl(e: Expression) -> bool decreases e {
-    match e {
-        Expression::Read { .. } => true,
-        Expression::Variant { value, .. } => e_nodecl(*value),
-        Expression::Call { function, args, .. } => e_nodecl(*function) && forall|i: int| 0 <= i < args.len() ==> e_nodecl(#[trigger] args[i]),
-        Expression::BlobAccess { value, .. } => e_nodecl(*value),
-        Expression::Index { value, index, .. } => e_nodecl(*value) && e_nodecl(*index),
-        Expression::BinOp { a, b, .. } => e_nodecl(*a) && e_nodecl(*b),
-        Expression::UniOp { a, .. } => e_nodecl(*a),
-        Expression::If { branches, .. } => forall|i: int| 0 <= i < branches.len() ==> ib_nodecl(#[trigger] branches[i]),
-        Expression::Case { to_match, branches, fall_through, .. } => e_nodecl(*to_match)
-            && (forall|i: int| 0 <= i < branches.len() ==> cb_nodecl(#[trigger] branches[i]))
-            && (match fall_through { Some(b) => forall|i: int| 0 <= i < b.len() ==> s_nodecl(#[trigger] b[i]), None => true }),
-        Expression::Function { body, .. } => forall|i: int| 0 <= i < body.len() ==> s_nodecl(#[trigger] body[i]),
-        Expression::Blob { fields, .. } => forall|i: int| 0 <= i < fields.len() ==> e_nodecl((#[trigger] fields[i]).1),
-        Expression::Collection { values, .. } => forall|i: int| 0 <= i < values.len() ==> e_nodecl(#[trigger] values[i]),
-        Expression::Float(..) | Expression::Int(..) | Expression::Str(..) | Expression::Bool(..) | Expression::Nil(..) => true,
-    }
-}
-spec fn ib_nodecl(b: IfBranch) -> bool decreases b {
-    (match b.condition { Some(c) => e_nodecl(c), None => true })
-    && forall|i: int| 0 <= i < b.body.len() ==> s_nodecl(#[trigger] b.body[i])
-}
-spec fn cb_nodecl(b: CaseBranch) -> bool decreases b {
-    forall|i: int| 0 <= i < b.body.len() ==> s_nodecl(#[trigger] b.body[i])
-}
-spec fn s_nodecl(s: Statement) -> bool decreases s {
-    match s {
-        Statement::Assignment { target, value, .. } => e_nodecl(target) && e_nodecl(value),
-        Statement::Blob { .. } | Statement::Enum { .. } | Statement::ExternalDefinition { .. } => false,
-        Statement::Definition { value, .. } => e_nodecl(value),
-        Statement::Loop { condition, body, .. } => e_nodecl(condition) && forall|i: int| 0 <= i < body.len() ==> s_nodecl(#[trigger] body[i]),
-        Statement::Break(_) | Statement::Continue(_) | Statement::Unreachable(_) => true,
-        Statement::Ret { value, .. } => match value { Some(v) => e_nodecl(v), None => true },
-        Statement::Block { statements, .. } => forall|i: int| 0 <= i < statements.len() ==> s_nodecl(#[trigger] statements[i]),
-        Statement::StatementExpression { value, .. } => e_nodecl(value),
+proof fn lemma_innermost_in_stack(stack: Seq<(String, Ref)>, name: Seq<char>)
+    requires innermost(stack, name) is Some,
+    ensures exists|i: int| 0 <= i < stack.len() && (#[trigger] stack[i]).1 == innermost(stack, name)->Some_0,
+    decreases stack.len()
+{
+    if stack.len() > 0 {
+        if stack.last().0@ == name {
+            assert(stack[stack.len() - 1].1 == innermost(stack, name)->Some_0);
+        } else {
+            lemma_innermost_in_stack(stack.drop_last(), name);
+            let i = choose|i: int| 0 <= i < stack.drop_last().len() && (#[trigger] stack.drop_last()[i]).1 == innermost(stack.drop_last(), name)->Some_0;
+            assert(stack[i].1 == innermost(stack, name)->Some_0);
+        }
     }
 }
 /// every parameter variable of a function literal was created as a constant
@@ -116,6 +91,7 @@ spec fn params_const(ps: Seq<(String, Ref, Span, Type)>, vars: Seq<Var>) -> bool
     forall|k: int| 0 <= k < ps.len() ==> ((#[trigger] ps[k]).1 as int) < vars.len() && vars[ps[k].1 as int].kind is Const
 }
 spec fn fields_nodecl(fs: Seq<(String, Expression)>) -> bool { forall|i: int| 0 <= i < fs.len() ==> e_nodecl((#[trigger] fs[i]).1) }
+spec fn fields_up(fs: Seq<(String, Expression)>, n: int) -> bool { forall|i: int| 0 <= i < fs.len() ==> e_up((#[trigger] fs[i]).1, n) }
 spec fn all_nodecl(ss: Seq<Statement>) -> bool { forall|i: int| 0 <= i < ss.len() ==> s_nodecl(#[trigger] ss[i]) }
 
 /// content of the global tables (uninterpreted: lookup_global is outside the unit)
@@ -127,6 +103,15 @@ impl Resolver {
     /// outside: it indexes two HashMaps keyed by placeholder types)
     spec fn global_of(&self, namespace_id: usize, name: Seq<char>) -> Option<Name> {
         global_table(self.namespaces, self.namespace_to_file, namespace_id, name)
+    }
+
+    /// every variable id the resolver can hand out exists: ids on the scope stack and ids in the
+    /// global tables are indices of the variable table
+    spec fn inv(&self) -> bool {
+        &&& forall|i: int| 0 <= i < self.stack@.len() ==> ((#[trigger] self.stack@[i]).1 as int) < self.variables@.len()
+        &&& forall|ns: usize, nm: Seq<char>| (#[trigger] global_table(self.namespaces, self.namespace_to_file, ns, nm)) is Some
+                && global_table(self.namespaces, self.namespace_to_file, ns, nm)->Some_0 is Name
+                ==> (global_table(self.namespaces, self.namespace_to_file, ns, nm)->Some_0->Name_0 as int) < self.variables@.len()
     }
 
     /// frame shared by all resolving functions: the global tables are never touched, variables are
@@ -186,6 +171,8 @@ impl Resolver {
 //@   why vstd has no specification for the reference-level blanket impl of == on (&String, &str); dereferencing both sides calls String: PartialEq<str> directly, which is what the blanket impl does
 //@   endrewrite
 //@   spec
+        requires
+            self.inv(), //# C07 lookup.pre.ids_in_range
         ensures
             innermost(self.stack@, name@) is Some ==> r == Ok::<Ref, Vec<Error>>(innermost(self.stack@, name@)->Some_0), //# C09,C02 lookup.innermost_local_binding_wins
             innermost(self.stack@, name@) is None && self.global_of(span.file_id, name@) == Some(Name::Name(0)) ==> true,
@@ -193,10 +180,14 @@ impl Resolver {
                 Some(Name::Name(v)) => r == Ok::<Ref, Vec<Error>>(v),
                 _ => r is Err && r->Err_0.len() == 1 && r->Err_0[0].span() == span,
             }), //# C09 lookup.then_file_globals_else_error_at_use
+            r is Ok ==> (r->Ok_0 as int) < self.variables@.len(), //# C07,C09 lookup.result_id_in_range
 //@   endspec
+//@   ghost entry
+        proof { if innermost(self.stack@, name@) is Some { lemma_innermost_in_stack(self.stack@, name@); } }
+//@   endghost
 //@   loop 1 binder it
             invariant
-                it.seq().len() == self.stack@.len(),
+                self.inv(), it.seq().len() == self.stack@.len(),
                 forall|j: int| 0 <= j < self.stack@.len() ==> *(#[trigger] it.seq()[j]) == self.stack@[self.stack@.len() - 1 - j],
                 forall|i: int| self.stack@.len() - it.index@ <= i < self.stack@.len() ==> (#[trigger] self.stack@[i]).0@ != name@, //# C09 lookup.loop.no_inner_match_skipped
 //@   endloop
@@ -206,6 +197,7 @@ impl Resolver {
                     let k = self.stack@.len() - it.index@;
                     lemma_innermost_skip(self.stack@, name@, k as int);
                     assert(self.stack@.take(k as int).last() == self.stack@[k - 1]);
+                    assert((self.stack@[k - 1].1 as int) < self.variables@.len());
                 }
 //@   endghost
 //@   ghost after-loop 1
@@ -218,7 +210,10 @@ impl Resolver {
 //@   props C07
 //@   ret r
 //@   spec
+        requires
+            self.inv(), //# C07 ty_assignable.pre.ids_in_range
         ensures r is Ok ==> r->Ok_0 is UserType, //# C07 ty_assignable.returns_user_type
+            r is Ok ==> (r->Ok_0->UserType_0 as int) < self.variables@.len(), //# C07 ty_assignable.result_id_in_range
 //@   endspec
 //@ end
 
@@ -227,6 +222,9 @@ impl Resolver {
 //@   props C09 C07
 //@   ret r
 //@   spec
+        requires
+            old(self).inv(), //# C07 new_var.pre.ids_in_range
+
         ensures
             r == old(self).variables@.len(), //# C09 new_var.fresh_id
             final(self).variables@.len() == old(self).variables@.len() + 1,
@@ -234,6 +232,7 @@ impl Resolver {
             final(self).variables@[r as int].kind == kind && final(self).variables@[r as int].id == r && !final(self).variables@[r as int].is_global, //# C04 new_var.records_kind
             final(self).stack == old(self).stack, //# C09 new_var.stack_untouched
             final(self).frame(old(self)), //# C09 new_var.frame_globals_untouched_variables_only_grow
+            final(self).inv(), //# C07 new_var.keeps_ids_in_range
 //@   endspec
 //@ end
 
@@ -242,12 +241,16 @@ impl Resolver {
 //@   props C09 C07
 //@   ret r
 //@   spec
+        requires
+            old(self).inv(), //# C07 push_var.pre.ids_in_range
+
         ensures
             r == old(self).variables@.len(),
             final(self).variables@.len() == old(self).variables@.len() + 1,
             final(self).variables@[r as int].kind == kind, //# C04 push_var.records_kind
             final(self).stack@ == old(self).stack@.push((ident.name, r)), //# C09 push_var.pushes_exactly_one_binding
             final(self).frame(old(self)), //# C09 push_var.frame_globals_untouched_variables_only_grow
+            final(self).inv(), //# C07 push_var.keeps_ids_in_range
 //@   endspec
 //@ end
 
@@ -258,6 +261,9 @@ impl Resolver {
 //@   attr #[verifier::loop_isolation(false)]
 //@   ret r
 //@   spec
+        requires
+            old(self).inv(), //# C07 assignable.pre.ids_in_range
+
         ensures
             r is Ok ==> final(self).stack@ == old(self).stack@, //# C09,C02 assignable.scope_restored
             is_prefix(old(self).stack@, final(self).stack@), //# C09 assignable.never_pops_callers_bindings
@@ -265,15 +271,22 @@ impl Resolver {
             r is Ok && old(self).stack@.len() > 0 ==> e_nodecl(r->Ok_0), //# C07 assignable.no_nested_declaration
             r is Ok && assignable.kind is ArrowCall ==> r->Ok_0 is Call
                 && r->Ok_0->Call_args@.len() == assignable.kind->ArrowCall_2@.len() + 1, //# C14 assignable.arrow_call_becomes_call_with_extra_first_argument
+            final(self).inv(), //# C07 assignable.keeps_ids_in_range
+            r is Ok ==> e_up(r->Ok_0, final(self).variables@.len() as int), //# C07,C09 assignable.result_ids_in_range
 //@   endspec
+//@   ghost entry
+        broadcast use group_up;
+//@   endghost
 //@   loop 1
                 invariant self.stack@ == old(self).stack@, self.frame(old(self)),
                     old(self).stack@.len() > 0 ==> forall|i: int| 0 <= i < args@.len() ==> e_nodecl(#[trigger] args@[i]),
+                    self.inv(), e_up(*function, self.variables@.len() as int), forall|i: int| 0 <= i < args@.len() ==> e_up(#[trigger] args@[i], self.variables@.len() as int),
 //@   endloop
 //@   loop 2 binder it2
                 invariant self.stack@ == old(self).stack@, self.frame(old(self)),
                     args@.len() == it2.index@ + 1, it2.seq().len() == assignable.kind->ArrowCall_2@.len(),
                     old(self).stack@.len() > 0 ==> forall|i: int| 0 <= i < args@.len() ==> e_nodecl(#[trigger] args@[i]),
+                    self.inv(), e_up(*function, self.variables@.len() as int), forall|i: int| 0 <= i < args@.len() ==> e_up(#[trigger] args@[i], self.variables@.len() as int),
 //@   endloop
 //@ end
 
@@ -284,15 +297,24 @@ impl Resolver {
 //@   attr #[verifier::loop_isolation(false)]
 //@   ret r
 //@   spec
+        requires
+            old(self).inv(), //# C07 collection.pre.ids_in_range
+
         ensures
             r is Ok ==> final(self).stack@ == old(self).stack@, //# C09,C02 collection.scope_restored
             is_prefix(old(self).stack@, final(self).stack@),
             final(self).frame(old(self)), //# C09 collection.frame_globals_untouched_variables_only_grow
             r is Ok && old(self).stack@.len() > 0 ==> e_nodecl(r->Ok_0), //# C07 collection.no_nested_declaration
+            final(self).inv(), //# C07 collection.keeps_ids_in_range
+            r is Ok ==> e_up(r->Ok_0, final(self).variables@.len() as int), //# C07,C09 collection.result_ids_in_range
 //@   endspec
+//@   ghost entry
+        broadcast use group_up;
+//@   endghost
 //@   loop 1
             invariant self.stack@ == old(self).stack@, self.frame(old(self)),
                 old(self).stack@.len() > 0 ==> forall|i: int| 0 <= i < values@.len() ==> e_nodecl(#[trigger] values@[i]),
+                self.inv(), forall|i: int| 0 <= i < values@.len() ==> e_up(#[trigger] values@[i], self.variables@.len() as int),
 //@   endloop
 //@ end
 
@@ -302,12 +324,20 @@ impl Resolver {
 //@   attr #[verifier::exec_allows_no_decreases_clause]
 //@   ret r
 //@   spec
+        requires
+            old(self).inv(), //# C07 binop.pre.ids_in_range
+
         ensures
             r is Ok ==> final(self).stack@ == old(self).stack@, //# C09,C02 binop.scope_restored
             is_prefix(old(self).stack@, final(self).stack@),
             final(self).frame(old(self)), //# C09 binop.frame_globals_untouched_variables_only_grow
             r is Ok && old(self).stack@.len() > 0 ==> e_nodecl(r->Ok_0), //# C07 binop.no_nested_declaration
+            final(self).inv(), //# C07 binop.keeps_ids_in_range
+            r is Ok ==> e_up(r->Ok_0, final(self).variables@.len() as int), //# C07,C09 binop.result_ids_in_range
 //@   endspec
+//@   ghost entry
+        broadcast use group_up;
+//@   endghost
 //@ end
 
 //@ fn sylt-compiler/src/name_resolution.rs uniop
@@ -316,12 +346,20 @@ impl Resolver {
 //@   attr #[verifier::exec_allows_no_decreases_clause]
 //@   ret r
 //@   spec
+        requires
+            old(self).inv(), //# C07 uniop.pre.ids_in_range
+
         ensures
             r is Ok ==> final(self).stack@ == old(self).stack@, //# C09,C02 uniop.scope_restored
             is_prefix(old(self).stack@, final(self).stack@),
             final(self).frame(old(self)), //# C09 uniop.frame_globals_untouched_variables_only_grow
             r is Ok && old(self).stack@.len() > 0 ==> e_nodecl(r->Ok_0), //# C07 uniop.no_nested_declaration
+            final(self).inv(), //# C07 uniop.keeps_ids_in_range
+            r is Ok ==> e_up(r->Ok_0, final(self).variables@.len() as int), //# C07,C09 uniop.result_ids_in_range
 //@   endspec
+//@   ghost entry
+        broadcast use group_up;
+//@   endghost
 //@ end
 
 //@ fn sylt-compiler/src/name_resolution.rs if_branch
@@ -330,12 +368,20 @@ impl Resolver {
 //@   attr #[verifier::exec_allows_no_decreases_clause]
 //@   ret r
 //@   spec
+        requires
+            old(self).inv(), //# C07 if_branch.pre.ids_in_range
+
         ensures
             r is Ok ==> final(self).stack@ == old(self).stack@, //# C09,C02 if_branch.scope_restored
             is_prefix(old(self).stack@, final(self).stack@),
             final(self).frame(old(self)), //# C09 if_branch.frame_globals_untouched_variables_only_grow
             r is Ok && old(self).stack@.len() > 0 ==> ib_nodecl(r->Ok_0), //# C07 if_branch.no_nested_declaration
+            final(self).inv(), //# C07 if_branch.keeps_ids_in_range
+            r is Ok ==> ib_up(r->Ok_0, final(self).variables@.len() as int), //# C07,C09 if_branch.result_ids_in_range
 //@   endspec
+//@   ghost entry
+        broadcast use group_up;
+//@   endghost
 //@ end
 
 //@ fn sylt-compiler/src/name_resolution.rs case_branch
@@ -356,6 +402,9 @@ impl Resolver {
 //@   why Verus rejects a closure that captures &mut self; Option::map applies the closure to the Some payload and keeps None, which is this match
 //@   endrewrite
 //@   spec
+        requires
+            old(self).inv(), //# C07 case_branch.pre.ids_in_range
+
         ensures
             r is Ok ==> final(self).stack@ == old(self).stack@, //# C09,C02 case_branch.scope_restored
             is_prefix(old(self).stack@, final(self).stack@),
@@ -363,11 +412,17 @@ impl Resolver {
             r is Ok && old(self).stack@.len() > 0 ==> cb_nodecl(r->Ok_0), //# C07 case_branch.no_nested_declaration
             r is Ok && r->Ok_0.variable is Some ==> (r->Ok_0.variable->Some_0 as int) < final(self).variables@.len()
                 && final(self).variables@[r->Ok_0.variable->Some_0 as int].kind is Const, //# C04 case_branch.binding_is_constant
+            final(self).inv(), //# C07 case_branch.keeps_ids_in_range
+            r is Ok ==> cb_up(r->Ok_0, final(self).variables@.len() as int), //# C07,C09 case_branch.result_ids_in_range
 //@   endspec
+//@   ghost entry
+        broadcast use group_up;
+//@   endghost
 //@   loop 1
             invariant is_prefix(old(self).stack@, self.stack@), self.frame(old(self)), self.stack@.len() > 0 || old(self).stack@.len() == 0,
                 old(self).stack@.len() > 0 ==> all_nodecl(body@),
                 *variable is Some ==> ((*variable)->Some_0 as int) < self.variables@.len() && self.variables@[(*variable)->Some_0 as int].kind is Const,
+                self.inv(), all_up(body@, self.variables@.len() as int),
 //@   endloop
 //@ end
 
@@ -378,14 +433,23 @@ impl Resolver {
 //@   attr #[verifier::loop_isolation(false)]
 //@   ret r
 //@   spec
+        requires
+            old(self).inv(), //# C07 block.pre.ids_in_range
+
         ensures
             is_prefix(old(self).stack@, final(self).stack@), //# C09,C02 block.only_appends_bindings
             final(self).frame(old(self)), //# C09 block.frame_globals_untouched_variables_only_grow
             r is Ok && old(self).stack@.len() > 0 ==> all_nodecl(r->Ok_0@), //# C07 block.no_nested_declaration
+            final(self).inv(), //# C07 block.keeps_ids_in_range
+            r is Ok ==> all_up(r->Ok_0@, final(self).variables@.len() as int), //# C07,C09 block.result_ids_in_range
 //@   endspec
+//@   ghost entry
+        broadcast use group_up;
+//@   endghost
 //@   loop 1
             invariant is_prefix(old(self).stack@, self.stack@), self.frame(old(self)),
                 old(self).stack@.len() > 0 ==> all_nodecl(stmts@),
+                self.inv(), all_up(stmts@, self.variables@.len() as int),
 //@   endloop
 //@ end
 
@@ -396,28 +460,40 @@ impl Resolver {
 //@   attr #[verifier::loop_isolation(false)]
 //@   ret r
 //@   spec
+        requires
+            old(self).inv(), //# C07 expression.pre.ids_in_range
+
         ensures
             r is Ok ==> final(self).stack@ == old(self).stack@, //# C09,C02 expression.scope_restored
             is_prefix(old(self).stack@, final(self).stack@), //# C09 expression.never_pops_callers_bindings
             final(self).frame(old(self)), //# C09 expression.frame_globals_untouched_variables_only_grow
             r is Ok && old(self).stack@.len() > 0 ==> e_nodecl(r->Ok_0), //# C07 expression.no_nested_declaration
+            final(self).inv(), //# C07 expression.keeps_ids_in_range
+            r is Ok ==> e_up(r->Ok_0, final(self).variables@.len() as int), //# C07,C09 expression.result_ids_in_range
 //@   endspec
+//@   ghost entry
+        broadcast use group_up;
+//@   endghost
 //@   loop 1
                     invariant self.stack@ == old(self).stack@, self.frame(old(self)),
                         old(self).stack@.len() > 0 ==> forall|i: int| 0 <= i < branches@.len() ==> ib_nodecl(#[trigger] branches@[i]),
+                        self.inv(), forall|i: int| 0 <= i < branches@.len() ==> ib_up(#[trigger] branches@[i], self.variables@.len() as int),
 //@   endloop
 //@   loop 2
                     invariant self.stack@ == old(self).stack@, self.frame(old(self)),
                         old(self).stack@.len() > 0 ==> forall|i: int| 0 <= i < branches@.len() ==> cb_nodecl(#[trigger] branches@[i]),
+                        self.inv(), e_up(*to_match, self.variables@.len() as int), forall|i: int| 0 <= i < branches@.len() ==> cb_up(#[trigger] branches@[i], self.variables@.len() as int),
 //@   endloop
 //@   loop 3
                     invariant is_prefix(old(self).stack@, self.stack@), self.frame(old(self)), ss == old(self).stack@.len(),
                         params_const(params@, self.variables@), //# C04 expression.loop.parameters_are_constants
                         self.stack@.len() == ss + params@.len(),
+                        self.inv(),
 //@   endloop
 //@   loop 4
                     invariant self.stack@ == old(self).stack@, self.frame(old(self)),
                         old(self).stack@.len() > 0 ==> fields_nodecl(fields@),
+                        self.inv(), (blob as int) < self.variables@.len(), (self_var as int) < self.variables@.len(), fields_up(fields@, self.variables@.len() as int),
 //@   endloop
 //@ end
 
@@ -448,6 +524,9 @@ impl Resolver {
 //@   why as for fields
 //@   endrewrite
 //@   spec
+        requires
+            old(self).inv(), //# C07 statement.pre.ids_in_range
+
         ensures
             is_prefix(old(self).stack@, final(self).stack@) || (old(self).stack@.len() == 0), //# C09 statement.never_pops_callers_bindings
             final(self).frame(old(self)), //# C09 statement.frame_globals_untouched_variables_only_grow
@@ -460,7 +539,14 @@ impl Resolver {
                 && final(self).stack@.last().1 == r->Ok_0->Some_0->Definition_var, //# C09 statement.local_definition_binds_exactly_its_name
             r is Ok && r->Ok_0 is Some && old(self).stack@.len() > 0 ==> s_nodecl(r->Ok_0->Some_0), //# C07 statement.no_nested_declaration
             r is Ok && r->Ok_0 is Some && old(self).stack@.len() == 0 && r->Ok_0->Some_0 is Definition ==> s_nodecl(r->Ok_0->Some_0), //# C07 statement.global_initialiser_has_no_declaration
+            final(self).inv(), //# C07 statement.keeps_ids_in_range
+            r is Ok && r->Ok_0 is Some ==> s_up(r->Ok_0->Some_0, final(self).variables@.len() as int), //# C07,C09 statement.result_ids_in_range
+            r is Ok && stmt.kind is Definition && old(self).stack@.len() > 0 && !(stmt.kind->Definition_value.kind is Function) ==>
+                e_up(r->Ok_0->Some_0->Definition_value, r->Ok_0->Some_0->Definition_var as int), //# C09 statement.initialiser_cannot_see_the_variable_it_defines
 //@   endspec
+//@   ghost entry
+        broadcast use group_up;
+//@   endghost
 //@ end
 }
 
